@@ -440,16 +440,19 @@ impl SingleByteEncoder {
                                 let high_bits = non_ascii & 0xFC00u16;
                                 if high_bits == 0xD800u16 {
                                     // high surrogate
-                                    if converted + 1 == length {
-                                        // End of buffer. This surrogate is unpaired.
+                                    if converted + 1 == src.len() {
+                                        // End of input. This surrogate is unpaired.
+                                        // (Comparing with `length` here would treat a
+                                        // valid pair as unpaired when `dst` is shorter
+                                        // than `src`.)
                                         return (
                                             EncoderResult::Unmappable('\u{FFFD}'),
                                             converted + 1, // +1 `for non_ascii`
                                             converted,
                                         );
                                     }
-                                    // Safety: convered < length from outside the match, and `converted + 1 != length`,
-                                    // So `converted + 1 < length` as well. We're in bounds
+                                    // Safety: converted < length <= src.len() from outside the match, and
+                                    // `converted + 1 != src.len()`, so `converted + 1 < src.len()`. We're in bounds
                                     let second =
                                         u32::from(unsafe { *src.get_unchecked(converted + 1) });
                                     if second & 0xFC00u32 != 0xDC00u32 {
